@@ -140,7 +140,9 @@ TagCfg(pr, t2, decs) ==
              !.tags = (IF s \in t2 /\ s = "s3" THEN <<Tag("t2", 0)>> ELSE <<>>)       \* s3 lists t2 first, s2 lists it last
                    \o (IF pr[s] # Absent THEN <<Tag("t1", pr[s])>> ELSE <<>>)
                    \o (IF s \in t2 /\ s # "s3" THEN <<Tag("t2", 0)>> ELSE <<>>)]]
-       @@ ("s4" :> CtorSvc("fx.NewD", <<>>) @@ "c1" :> CtorSvc("fx.NewZ", <<ATagged("t1"), ATagged("t2")>>)),
+       \* s5: a tagged service given by nothing but a value
+       @@ ("s4" :> CtorSvc("fx.NewD", <<>>) @@ "s5" :> [EmptySvc EXCEPT !.value = "&fx.S{}", !.tags = <<Tag("t2", 5)>>]
+           @@ "c1" :> CtorSvc("fx.NewZ", <<ATagged("t1"), ATagged("t2")>>)),
      !.decorators = decs]
 DecSeqs ==
   << <<>>,
@@ -150,7 +152,10 @@ DecSeqs ==
      <<Dec("t2", "fx.Decorate", <<AStr("z")>>), Dec("t1", "fx.Decorate", <<AStr("a")>>), Dec("t2", "fx.Decorate", <<AStr("y")>>)>>,
      <<Dec("t1", "fx.Decorate", <<AStr("a")>>), Dec("t1", "fx.Decorate", <<ARef("p1")>>)>>,
      <<Dec("t2", "fx.Decorate", <<ATagged("t1")>>)>>,
-     <<Dec("t1", "fx.Decorate", <<ALit("int", "1"), ASvc("s4"), ASelf>>)>> >>
+     <<Dec("t1", "fx.Decorate", <<ALit("int", "1"), ASvc("s4"), ASelf>>)>>,
+     \* arguments that print alike and differ in type, within one decorator and across decorators
+     <<Dec("t1", "fx.Decorate", <<ALit("int", "7"), AStr("7")>>),
+       Dec("t1", "fx.DecorateB", <<AStr("7"), ALit("bool", "true"), AStr("true"), ALit("float", "1.5"), AStr("1.5"), ALit("int", "7")>>)>> >>
 
 (* ways of spreading a configuration over files *)
 TagsTail(c) == [s \in {x \in DOMAIN c.services : Len(c.services[x].tags) >= 2} |->
@@ -170,7 +175,7 @@ TagFileSets(zz) ==
   {SplitFiles(TagCfg(pr, t2, DecSeqs[d]), k) :
       pr \in PrioAssignments(0), t2 \in SUBSET {"s2", "s3"}, d \in 1..Len(DecSeqs), k \in 1..3}
 TagScript == <<OpGetTaggedBy("t1"), OpGetTaggedBy("t2"), OpGet("c1"), OpGet("s1"), OpGetTaggedBy("t1"),
-               OpIsTaggedBy("s1", "t1"), OpIsTaggedBy("s2", "t2"), OpIsTaggedBy("s3", "t2"), OpIsTaggedBy("c1", "t1"), OpIsTaggedBy("s1", "t3"), OpCircularDeps>>
+               OpIsTaggedBy("s1", "t1"), OpIsTaggedBy("s2", "t2"), OpIsTaggedBy("s3", "t2"), OpIsTaggedBy("c1", "t1"), OpIsTaggedBy("s1", "t3"), OpIsTaggedBy("s5", "t2"), OpCircularDeps>>
 
 -----------------------------------------------------------------------------
 (* Family "todo" (C15): every subset of {p1, p2, s1, s2} marked todo, all histories over   *)
